@@ -24,6 +24,23 @@ def tools(variant):
             "dumpops": common.cc_driver("dumpops", ["arith/dumpops.c"], lib)}
 
 
+EXTRACT_DEPS = ["Arith/Fmt.vo", "Arith/Constred.vo", "Arith/RtEval.vo"]
+
+
+def build_model(ctx):
+    """compile what coq/Extract/ExtractArith.v needs (ctx.proofs() only builds the closure of
+    the property file), extract, link the OCaml runner.  Returns True if the runner exists."""
+    ok, log = common.coq_make(EXTRACT_DEPS)
+    if not ok:
+        ctx.correspondence_broken("coq-build-of-the-arithmetic-model", log[-2000:])
+        return False
+    ok, log = common.ocaml_build("arith")
+    if not ok or not os.path.exists(model_binary()):
+        ctx.correspondence_broken("ocaml-build", log[-2000:])
+        return False
+    return True
+
+
 def model_binary():
     return os.path.join(common.BUILD, "ocaml", "arith", "run")
 
